@@ -206,3 +206,36 @@ func VerifH_C13_ClientRead() {
 	verifAssert(peer.maxReq <= uint64(announced), "every Tread frame <= announced msize")
 	verifAssert(peer.maxReply <= uint64(announced), "every Tread count + 11 <= announced msize")
 }
+
+// VerifH_C13_ServerRreaddir: msize and Treaddir count symbolic, directory of
+// 0..3 entries with names of 1..2 bytes.
+func VerifH_C13_ServerRreaddir() {
+	f := &verifSizedFile{}
+	s := NewServer(&verifAttacher{f})
+	cs := verifNewConn(s)
+	msize := verifNondetU32()
+	negotiated := verifNegotiate(cs, msize)
+	verifAssume(negotiated >= 23)
+	ne := verifChoice(verifParam("E", 3) + 1)
+	for i := 0; i < ne; i++ {
+		var d Dirent
+		verifHavoc(&d, 1+verifChoice(2), 0, 0)
+		f.entries = append(f.entries, d)
+	}
+	ref := &fidRef{server: s, file: f, refs: 1, opened: true, openFlags: ReadOnly, mode: ModeDirectory, pathNode: s.pathTree}
+	cs.fids[1] = ref
+	count := verifNondetU32()
+	reply := cs.handle(&treaddir{Directory: 1, Offset: verifNondetU64(), Count: count})
+	w := &verifRecWriter{}
+	err := send(verifLog, w, 5, reply)
+	verifAssert(err == nil, "reply sent")
+	verifReach("rreaddir-sent")
+	verifAssert(w.total <= uint64(negotiated), "Rreaddir frame <= negotiated msize")
+	verifAssert(uint64(verifHdrSize(w.hdr)) == w.total, "size field == bytes written")
+	if w.total > 11 {
+		verifReach("entries-listed")
+	}
+	if rd, ok := reply.(*rreaddir); ok && ne > 0 && uint64(count) >= uint64(specDirentSize(f.entries[0])) && uint64(negotiated) >= 11+uint64(specDirentSize(f.entries[0])) {
+		verifAssert(rd.Count > 0, "when one entry fits both the count and the msize, at least one entry is listed")
+	}
+}
